@@ -86,6 +86,7 @@ type c04Run struct {
 	failOn  bool
 	mu      sync.Mutex
 	ctxStop context.CancelFunc
+	hookFailed int // FailSync calls made by the hook
 }
 
 type c04Env struct {
@@ -267,6 +268,9 @@ func (ru *c04Run) hook() dagsync.BlockHookFunc {
 		ru.mu.Unlock()
 		if fail {
 			ru.env.c.Inc("fault_hit_hook-fail")
+			ru.mu.Lock()
+			ru.hookFailed++
+			ru.mu.Unlock()
 			act.FailSync(errors.New("injected hook failure"))
 		}
 	}
@@ -432,6 +436,13 @@ func c04One(c *vf.Ctx, sub string, i int, env *c04Env, k c04Case) {
 			c.Fail(sub, i, "store-corrupted-by-failed-sync:"+k.classKey(), fmt.Sprint(faulty.storeBad), wit())
 		}
 		failed := faulty.err != nil
+		ru.mu.Lock()
+		hf := ru.hookFailed
+		ru.mu.Unlock()
+		if hf > 0 && !failed {
+			// FailSync in a segmented sync "fails the sync ... as soon as the current segment finishes"
+			c.Fail(sub, i, "hook-failure-ignored:"+k.classKey(), fmt.Sprintf("the block hook called FailSync %d time(s) in a segmented sync, yet the sync reported success (latest=%s)", hf, faulty.latest), wit())
+		}
 		if failed {
 			c.Inc("faulty_syncs_failed")
 			if !faulty.latest.Equals(base) {
